@@ -26,10 +26,12 @@ sec = f"""
 
 ## 12. Seeded changes and which checks catch them
 
-{len(rows)} property-breaking changes were written in three batches by independent sub-agents that saw only the text of
+{len(rows)} property-breaking changes were written in five batches by independent sub-agents that saw only the text of
 one property and a scratch worktree (nothing from /verif): batch 1 (ids `CnnA`, `CnnB`, all 20 properties, against the
-tree with fixes F1-F15), batch 2 (`CnnC`, `CnnD` for 12 schedule / negotiation properties, against the tree with F1-F24)
-and batch 3 (`CnnC`, `CnnD` for the remaining 8, against F1-F26).  Each was confirmed in a scratch worktree (patch applies
+tree with fixes F1-F15), batch 2 (`CnnC`, `CnnD` for 12 schedule / negotiation properties, against the tree with F1-F24),
+batch 3 (`CnnC`, `CnnD` for the remaining 8, against F1-F26), batch 4 (`CnnE`, `CnnF` for the 8 schedule properties,
+asked for changes that need a specific, deep history to show) and batch 5 (`CnnG`, `CnnH` for the other 12, same
+brief; both against F1-F27).  Each was confirmed in a scratch worktree (patch applies
 on its own, the 176-test baseline still passes, its demonstration exits 0 without and 1 with the change;
 `tools/confirm_seed2.sh`) and is kept as `seeded/<id>/{{patch.diff, demo.py, notes.md, meta.json}}`.
 `tools/run_seeded.py` applies each to a scratch worktree of /repo's HEAD, points the **quick** tier of its property's
@@ -52,7 +54,15 @@ C15D; found F25 and F27 on the way), C09 (every delivery order of two colliding 
 (empty Message-ID-0 messages and every value of the first-payload octet, for C07D), C18 (unacceptable requests under
 load must still only get a COOKIE, for C18D), C20 (three of four cases at the daemon's default INFO level, real
 `traceback` proxy, for C20C / C20D).  C14C is a configuration-to-policy error and is caught by C15, not by C14's
-function-level check.
+function-level check.  Batch 4 - C08 (an INVALID_KE_PAYLOAD round inside the window histories), C10 (`DeleteJustified`:
+every DELSA must be explained by a Delete, an expiry or a failed exchange; loss grid over every datagram of a rekey),
+C13 (forced triggers marked as such so that natural timers are still judged, delayed deletes, a peer that restarts),
+C16 (blackhole stretches; directed expiry-around-IKE-rekey cases), C17 (a peer that becomes unreachable: `sendto`
+raising must not end the loop).  Batch 5 - C07 (1-15 extra padding blocks on reference-protected messages), C12
+(`get_network()` of arbitrary non-CIDR ranges must be the smallest covering network), C14 (policy indices up to
+2^32-1 in ACQUIRE events and `create_policy`), C15 (entries without explicit index: the daemon-chosen indices must be
+distinct and map back), C18 (the half-open load comes from a second peer), C20 (the ERROR record pyikev2.py writes for a
+refused configuration).
 """
 p = ROOT + '/DESIGN.md'
 s = open(p).read()
